@@ -19,6 +19,9 @@ ASSUMPTIONS = ["external libraries are oracles; theorems hold for every oracle b
 # ceremony-level deviations the statement of C02 names (the rest of the catalogue is format-level: C03)
 CEREMONY = attest.CATALOGUE["ceremony"] + attest.CATALOGUE["none"]
 NOT_C02 = {"R.cred-type", "R.bs-without-be", "R.tb-not-supported", "R.at-clear-data-present"}
+# deviations applied by this harness around the simulator (X. = expectation-side)
+HARNESS_FAULTS = ["X.origin-is-proper-prefix-of-expected", "X.origin-is-infix-of-expected", "X.alg-not-allowed",
+                  "X.alg-unregistered-not-allowed", "X.uv-clear-required-up-waived", "X.origin-list-lacks-it"]
 
 
 def work(tasks, idx):
@@ -27,15 +30,35 @@ def work(tasks, idx):
     tie = corr.Tie(res, drv, "code_accept_implies_model_accept")
     for fmt, choice, fs, variant in tasks:
         kw = {"n_intermediates": variant % 2} if fmt in attest.CHAIN_FORMATS and fmt != "fido-u2f" else {}
-        b = _reg.build(fmt, choice, fs, **kw)
+        xs = [f for f in fs if f.startswith("X.")]
+        sim_fs = tuple(f for f in fs if not f.startswith("X."))
+        if "X.origin-is-proper-prefix-of-expected" in xs:
+            kw["origin"] = "https://example.co"
+        if "X.origin-is-infix-of-expected" in xs:
+            kw["origin"] = "example"
+        if "X.uv-clear-required-up-waived" in xs:
+            sim_fs = sim_fs + ("R.uv-clear",)
+        if "X.alg-unregistered-not-allowed" in xs:
+            if fmt not in ("none",):
+                continue
+            choice = (choice[0], choice[1], -35 if variant % 2 else -47)
+        b = _reg.build(fmt, choice, sim_fs, aaguid=bytes((variant * 7 + i) % 256 for i in range(16)), **kw)
         if b is None:
             continue
         req, r = b
-        over = {"require_uv": True} if "R.uv-clear" in fs or variant % 3 == 0 else {}
+        over = {"require_uv": True} if "R.uv-clear" in sim_fs or variant % 3 == 0 else {}
         if variant % 4 == 1:
             over["origin"] = [req.origin, "https://other.example"]
-        if "R.up-clear" in fs:
+        if "R.up-clear" in sim_fs:
             over["require_up"] = True
+        if xs and xs[0].startswith("X.origin-is"):
+            over["origin"] = "https://example.com"
+        if "X.origin-list-lacks-it" in xs:
+            over["origin"] = ["https://a.example", req.origin + "x", "x" + req.origin]
+        if "X.alg-not-allowed" in xs or "X.alg-unregistered-not-allowed" in xs:
+            over["algs"] = [a for a in cases.ALL_ALGS if a != choice[2]][: 3 + variant % 5]
+        if "X.uv-clear-required-up-waived" in xs:
+            over["require_up"], over["require_uv"] = False, True
         e = _reg.expectation(req, r.roots, **over)
         c = r.credential
         code, _ = _reg.eval_reg(tie, res, c, e, label=[fmt] + list(fs))
@@ -48,7 +71,7 @@ def work(tasks, idx):
                 res.violations.append({"why": f"accepted although conjunct '{bad}' is false", "faults": list(fs), "fmt": fmt,
                                        "case": cases.reg_case(c, e), "code": code,
                                        "match": {"op": "verify_reg", "conjunct": bad}})
-            elif len(fs) == 1 and fs[0] in CEREMONY and fs[0] not in NOT_C02:
+            elif len(fs) == 1 and (fs[0] in CEREMONY or fs[0] in HARNESS_FAULTS) and fs[0] not in NOT_C02:
                 res.violations.append({"why": f"single ceremony-level fault {fs[0]} accepted under {fmt}", "faults": list(fs),
                                        "fmt": fmt, "case": cases.reg_case(c, e), "code": code,
                                        "match": {"op": "verify_reg", "fault": fs[0]}})
@@ -69,7 +92,7 @@ def run(ctx, res):
         faults = attest.CATALOGUE["ceremony"] + (attest.CATALOGUE["none"] if fmt == "none" else [])
         for ch in (choices if not ctx.quick() else choices[:3]):
             tasks.append((fmt, ch, (), rng.randrange(12)))
-        for f in faults:
+        for f in faults + HARNESS_FAULTS:
             for ch in (rng.sample(choices, min(2, len(choices))) if ctx.quick() else choices):
                 tasks.append((fmt, ch, (f,), rng.randrange(12)))
         n = 12 if ctx.quick() else 150
